@@ -175,12 +175,13 @@ def process (law : Law) (st : State) (samples : List Vec) (flush : Bool) : State
   { r.1 with prevLoad := r.2 }
 
 /-- `_adjust_samples_and_flush_for_hcm_first_run`: prepend a zero load step; flush iff the last
-sample is a turning point of the doubled (zero-prefixed) sequence. -/
+sample is a turning point of the zero-prefixed sequence continued by the sequence itself (what the
+second run will feed). -/
 def adjustFirstRun (samples : List Vec) : List Vec × Bool :=
   let nNodes := (samples.headD []).length
   let s' := List.replicate nNodes 0 :: samples
   let reps := s'.map rep
-  let turnIdx := (findTurns (reps ++ reps)).map (·.1)
+  let turnIdx := (findTurns (reps ++ reps.tail)).map (·.1)
   (s', turnIdx.contains (s'.length - 1))
 
 /-- `_drop_trailing_non_reversals`: keep the samples up to the last turning point of the periodically
